@@ -6,7 +6,7 @@ import typing as t
 
 from vlib.fixtures import models as M
 from vlib.shapes import *  # noqa: F401,F403
-from vlib.shapes import (Bool, Bytes, DictOf, EnumS, FixedTuple, Float, Int, ListOf, Lit, Map, NoneS, Opt, Picked, Seq,
+from vlib.shapes import (Bool, Bytes, DictOf, Loose, EnumS, FixedTuple, Float, Int, ListOf, Lit, Map, NoneS, Opt, Picked, Seq,
                          SetOf, Shape, Str, Struct, UnionS, Wrapped)
 
 
@@ -47,6 +47,7 @@ def MixedS(): return Struct(M.Mixed, {"p": PointS(), "tags": ListOf(Str()), "pai
 def NTS_(): return Struct(M.NT, {"a": Int(), "b": Str()})
 def NTSS(): return Struct(M.NTS, {"name": Str(), "n": Int()})
 def SubNTS(): return Struct(M.SubNT, {"a": Int(), "b": Str()}, name="SubNT")
+def PlainNTS(): return Struct(M.PlainNT, {"a": Loose(Str()), "b": Loose(Int())}, name="PlainNT")
 def TDS(): return Struct(M.TD, {"a": Int(), "b": Str()}, kind="typeddict")
 def TDNS(): return Struct(M.TDN, {"a": Int(), "b": Str()}, kind="typeddict", optional=("b",))
 def TDChildS(): return Struct(M.TDChild, {"id": Int(), "nick": Str()}, kind="typeddict", optional=("nick",))
@@ -186,7 +187,7 @@ def containers1():
 
 def structured():
     return [PointS(), SPointS(), FPointS(), KPointS(), LineS(), BagS(), MixedS(), NTS_(), NTSS(), TDS(), TDNS(),
-            TDChildS(), TDReqS(), PlainS(), SlottedS(), SubNTS()]
+            TDChildS(), TDReqS(), PlainS(), SlottedS(), SubNTS(), PlainNTS()]
 
 
 def wrappers():
@@ -210,6 +211,7 @@ def depth2():
         DictOf(Str(), DecimalS()), ListOf(EnumS(M.Color)), Opt(PointS()), ListOf(FixedTuple(Int(), Str())),
         DictOf(Str(), Opt(Str())), VarTuple(NTS_()), ListOf(TDS()), Opt(DateTimeS()), ListOf(UUIDS_()),
         DictOf(EnumS(M.Mood), Int()), FixedTuple(DateS(), TimeDeltaS(), Int()), ListOf(TimeDeltaS()),
+        UnionS(Int(-2, 2), Str()), UnionS(PointS(), Int(-2, 2)), ListOf(UnionS(Int(-2, 2), Str())), DictOf(Str(), UnionS(Int(-2, 2), PointS())),
     ]
 
 
@@ -232,6 +234,7 @@ CORE = {
     "Tree", "Chain", "DNode", "Ping", "Dept", "NTree", "TDNode", "Item", "Cyc", "Ind",
     "list[list[int]]", "dict[str,list[int]]", "list[Point]", "dict[str,Point]", "list[Optional[int]]",
     "tuple[Point,list[int]]", "Optional[Point]", "list[date]", "list[TD]", "list[tuple[int,str]]",
+    "Union[int,str]", "Union[Point,int]", "list[Union[int,str]]", "PlainNT",
 }
 
 
